@@ -38,7 +38,8 @@ PROPS = {
     'C17': dict(
         rules=[names.len_dispatch, rot.rot_series, rot.rot_exp, rot.euler_inv, rot.euler_conv, errmodel.es_first,
                geo.unit_const, lambda c: forms.form_agree(c, ('error_model', 'transform'), 2)],
-        decided=['small-angle arm is the Maclaurin truncation of the closed form and continuous '
+        decided=['single triples and stacks are told apart by ndim, never by the length of the leading axis; no divisor of the closed-form rotation coefficients vanishes on its arm',
+                 'small-angle arm is the Maclaurin truncation of the closed form and continuous '
                  'across the branch to 2^-53',
                  'rotation-vector routine is the exponential map (Rodrigues coefficients as '
                  'series, sign pattern of util.skew_matrix)',
@@ -91,7 +92,8 @@ PROPS = {
                lambda c: sched.sched_pair(c, (sched.FF,)),
                lambda c: sched.key_rebind(c, (sched.FF,)),
                sched.step_bound],
-        decided=['documented defaults run', 'termination and strictly increasing output index '
+        decided=['the averaged readings are divided by the positive step handed over, never by a batch-dependent quantity that can vanish',
+                 'documented defaults run', 'termination and strictly increasing output index '
                  '(progress guard)', 'step never beyond max(time step, local gap)',
                  'epoch list de-duplicated, clipped, sentinel last',
                  'epoch cursor advanced exactly once per processed epoch',
@@ -169,7 +171,8 @@ PROPS = {
                lambda c: dtype.dtype_inherit(c, ('kalman', 'filters')),
                lambda c: sched.sched_handover(c, (sched.FB, sched.FF)),
                lambda c: sched.sched_progress(c, (sched.FB, sched.FF))],
-        decided=['the step handed to the discretisation is the interval between the rows that are '
+        decided=['the inputs F, Q are not modified (sub-steps of a partition see the same model)',
+                 'the step handed to the discretisation is the interval between the rows that are '
                  'actually propagated (cursor read only after the progress guard has adjusted it)',
                  'Van Loan block layout and transposition: expm([[F, Q],[0, -F^T]] dt), returns '
                  '(E00, E01 E00^T)', 'process noise at the call site is G diag(q^2) G^T',
@@ -212,7 +215,8 @@ PROPS = {
                sensor.sm_const,
                layout.layout_state,
                layout.layout_noise, layout.layout_prov, layout.assembly, layout.call_roles],
-        decided=['the simulator\'s parameter table, executed for a covering family of masks: '
+        decided=['no method but the constructor stores into the model matrices (F, G, H, P, q, v), directly or through an un-copied alias',
+                 'the simulator\'s parameter table, executed for a covering family of masks: '
                  'exactly the columns of the non-nominal terms, named and valued as documented',
                  'for a covering family of enable masks (all off/on, each flag alone on and alone '
                  'off, 40 fixed pseudo-random ones) the constructed model has exactly the '
@@ -275,7 +279,8 @@ PROPS = {
                integrator.buf_rules, integrator.carrier, integrator.carrier_sync,
                integrator.predict_eff, kal.kal_rules, kal.use_after_overwrite,
                integrator.wa_forward],
-        decided=['both filters fuse the same set of measurement samples: same epoch-list stages (merge, de-duplication, clip to [start, end], sentinel) in both loops',
+        decided=['in each filter the state for the propagation matrices is the rotation-mean mid-point of _interpolate_pva, not an arithmetic mean of angles',
+                 'both filters fuse the same set of measurement samples: same epoch-list stages (merge, de-duplication, clip to [start, end], sentinel) in both loops',
                  'both filters reset both sensor models before any use (re-run reproducibility)',
                  'feedback effects (set_pva, update_estimates, correct) only inside the '
                  'measurement-due block: with no epoch in the span the loop is plain integration '
@@ -291,7 +296,8 @@ PROPS = {
                geo.role_radii, geo.parity_ecef, geo.olson_rules, geo.wgs_const,
                lambda c: forms.form_agree(c, ('earth', 'transform')),
                lambda c: dtype.dtype_inherit(c, ('transform', 'earth'))],
-        decided=['NED axes of mat_en_from_ll are the partial derivatives of lla_to_ecef with '
+        decided=['the sine / cosine pair handed to the Newton step of ecef_to_lla is consistent (s^2 + c^2 = 1 identically in the guess); single items and stacks are told apart by ndim',
+                 'NED axes of mat_en_from_ll are the partial derivatives of lla_to_ecef with '
                  'lengths given by principal_radii (symbolic proof for all lat/lon/alt)',
                  'perturb_lla, compute_lla_difference and lla_to_ned agree with that geometry to '
                  'first order', 'curvature matrix = rotation of the NED frame under displacement',
@@ -343,7 +349,8 @@ PROPS = {
     'C03': dict(
         rules=[frames.frame_suffix, simrules.sim_inc, simrules.sim_struct, simrules.sim_kin,
                simrules.sim_integ, geo.wgs_const, simrules.sim_spline_bc],
-        decided=['rate-type readings satisfy the navigation equations assembled from earth.* for an '
+        decided=['the splines of generate_imu keep the default not-a-knot end conditions (no assumption about the motion at the ends of the record)',
+                 'rate-type readings satisfy the navigation equations assembled from earth.* for an '
                  'arbitrary smooth trajectory (symbolic, splines idealised as exact derivatives; '
                  'position and position+velocity forms); a body at rest senses exactly Earth rate '
                  'and the reaction to gravity',
